@@ -1,4 +1,4 @@
-use dsl::core::FileId;
+use dsl::core::{FileId, SourceSpan};
 
 use crate::token::{Token, TokenType};
 
@@ -19,10 +19,15 @@ pub fn insert_keyword_statement_terminators(input: Vec<Token>, _file_id: &FileId
                 TokenType::Semicolon => in_end_statement = false,
                 TokenType::Comment | TokenType::Whitespace | TokenType::Newline => {}
                 _ => {
-                    // TODO remove the span and line/col
+                    // The inserted token has no text, so it has an empty span (where
+                    // the next token starts)
                     output.push(Token {
                         token_type: TokenType::Semicolon,
-                        span: tok.span.clone(),
+                        span: SourceSpan {
+                            start: tok.span.start,
+                            end: tok.span.start,
+                            file_id: tok.span.file_id.clone(),
+                        },
                         line: tok.line,
                         col: tok.col,
                         text: "".to_owned(),
